@@ -428,6 +428,7 @@ func c24Case(t *testing.T, rng *rand.Rand, nSessions int) (res c24Result) {
 			res.err = err.Error()
 			return
 		}
+		env.CloseSettle = 8 * time.Second // an (unauthorised) leave may still be in flight
 		defer env.Close()
 		p, err := cluster.StartPuppet(env.Net, cluster.PuppetOpts{Name: "peer", IP: "10.0.0.9", Keyring: pring})
 		if err != nil {
